@@ -94,11 +94,11 @@ Post(c, res) ==
 
 \* ---------------------------------------------------------------- the two TLC passes
 \* pass 1 (generate): write the domain
-Generate == JsonSerialize(IOEnv.CASES_FILE, [i \in 1..Cardinality(Cases) |-> CaseJson(SetToSeq(Cases)[i])])
+Generate == IF IOEnv.PASS # "generate" THEN TRUE ELSE JsonSerialize(IOEnv.CASES_FILE, [i \in 1..Cardinality(Cases) |-> CaseJson(SetToSeq(Cases)[i])])
 \* pass 2 (judge): cases and results come back in the same order
 FromJson(j) == [n |-> j.n, outs |-> [i \in 1..j.n |-> Len(j.tasks[i].outs)],
                 edges |-> {<<CHOOSE i \in 1..j.n : Name(i) = e[1], (CHOOSE o \in 1..2 : OName(o) = e[2]), CHOOSE i \in 1..j.n : Name(i) = e[3]>> : e \in SetOf(j.edges)}]
-Judge ==
+Judge == IF IOEnv.PASS # "judge" THEN TRUE ELSE
   LET cs == JsonDeserialize(IOEnv.CASES_FILE)
       rs == JsonDeserialize(IOEnv.RESULTS_FILE)
   IN \A i \in DOMAIN cs :
